@@ -68,6 +68,7 @@ type result struct {
 	Probe        string    `json:"probe,omitempty"`    // ok | skipped | silent | error:<..> | stale:<..>
 	Liveness     string    `json:"liveness,omitempty"` // when the request stayed silent: did a fresh exchange through the same proxy work?
 	SilentUntil  int64     `json:"silent_until_us,omitempty"`
+	MaxStallUs   int64     `json:"max_sched_delay_us"` // largest scheduling delay of the test process itself while the scenario ran
 	Infra        string    `json:"infra,omitempty"`
 }
 
@@ -112,7 +113,11 @@ func (r *run) arrive(host, conn int, bodyOK bool) *arrival {
 	if lim := t0.Add(r.globalD() + 40*time.Millisecond); a.Due.After(lim) {
 		a.Due = lim
 	}
-	a.Poisoned = r.poison[[2]int{host, conn}]
+	if a.Poisoned = r.poison[[2]int{host, conn}]; a.Poisoned {
+		// bolt: a partial frame is pending on this connection ("sent part of the answer, then stalled"); writing
+		// anything after it would only produce a garbled frame, which is C08's subject, not this property's
+		a.Step = Step{Kind: "stall", At: a.Step.At}
+	}
 	a.AtUs, a.DueUs = now.Sub(t0).Microseconds(), a.Due.Sub(t0).Microseconds()
 	r.arr = append(r.arr, a)
 	return a
@@ -283,6 +288,12 @@ func (r *run) serveBolt(host, conn int, c net.Conn) {
 			continue
 		}
 		if r.isAux(x.Token) {
+			r.mu.Lock()
+			garbled := r.poison[[2]int{host, conn}]
+			r.mu.Unlock()
+			if garbled {
+				continue
+			}
 			wmu.Lock()
 			_, _ = c.Write(mesh.XResponse("bolt", uint32(x.ID), 0, x.Token, []byte("aux:"+x.Token)))
 			wmu.Unlock()
@@ -315,6 +326,61 @@ func deadAddr() (string, func(), error) {
 	}
 	port := sa.(*syscall.SockaddrInet4).Port
 	return fmt.Sprintf("127.0.0.1:%d", port), func() { _ = syscall.Close(fd) }, nil
+}
+
+// ---------------------------------------------------------------- scheduling-delay monitor
+
+// The test process shares the machine with other heavy jobs. A monitor goroutine sleeps 500 us at a
+// time and records every wake-up that came more than 2 ms late; a scenario during which the process
+// itself was demonstrably not scheduled in time says nothing about MOSN's timing (rule 4: elapsed-time
+// verdicts only where the measured jitter is an order of magnitude below the band).
+type stallEvent struct {
+	at  time.Time
+	gap time.Duration
+}
+
+var (
+	stallMu     sync.Mutex
+	stallEvents []stallEvent
+	stallOnce   sync.Once
+)
+
+func startStallMonitor() {
+	stallOnce.Do(func() {
+		go func() {
+			last := time.Now()
+			for {
+				time.Sleep(500 * time.Microsecond)
+				now := time.Now()
+				if gap := now.Sub(last) - 500*time.Microsecond; gap > 2*time.Millisecond {
+					stallMu.Lock()
+					stallEvents = append(stallEvents, stallEvent{now, gap})
+					if len(stallEvents) > 20000 {
+						stallEvents = append([]stallEvent(nil), stallEvents[10000:]...)
+					}
+					stallMu.Unlock()
+				}
+				last = now
+			}
+		}()
+	})
+}
+
+// maxStall is the largest scheduling delay the monitor saw between from and to.
+func maxStall(from, to time.Time) time.Duration {
+	stallMu.Lock()
+	defer stallMu.Unlock()
+	var m time.Duration
+	for i := len(stallEvents) - 1; i >= 0; i-- {
+		e := stallEvents[i]
+		if e.at.Before(from) {
+			break
+		}
+		if e.at.Add(-e.gap).Before(to) && e.gap > m {
+			m = e.gap
+		}
+	}
+	return m
 }
 
 // ---------------------------------------------------------------- client
@@ -502,6 +568,7 @@ const (
 
 // runScenario executes one scenario against a fresh proxy instance and fresh upstream sockets.
 func runScenario(sc *Scenario) (res *result) {
+	startStallMonitor()
 	uniq := mesh.Uniq()
 	r := &run{sc: sc, tok: fmt.Sprintf("t%d", uniq), done: make(chan struct{}), poison: map[[2]int]bool{}}
 	res = &result{Token: r.tok}
@@ -699,6 +766,7 @@ func runScenario(sc *Scenario) (res *result) {
 	}
 	cl.mu.Unlock()
 	res.Arrivals = r.snapshot()
+	res.MaxStallUs = maxStall(t0, time.Now()).Microseconds()
 	return res
 }
 
